@@ -424,6 +424,12 @@ def oracle(blocks, outcome, uend_tok, P, own=None, proposal=None, requested=None
             continue
         flags = [p[4] for p in post]
         exhausted = pre[0][3] >= P['max_restarts']
+        # the first step really worked on the value the block was started from (e.g. InterpolateBetweenRestarts
+        # must not alter u[0])
+        if pre[0][4] != post[0][8]:
+            bad.append(('restart_semantics', {'attempt': a, 'what': 'u[0] of the first step changed between pre_step and post_step',
+                                              'token_pre': pre[0][4], 'token_post': post[0][8]},
+                        {'kind': 'restart_semantics', 'sub': 'u0-modified'}))
         # ---- A: shape of the flags
         if P['rffs']:
             if len(set(flags)) > 1:
